@@ -11,8 +11,10 @@ NPDT = {'b': numpy.bool_, 'i': numpy.int64, 'f': numpy.float64, 'c': numpy.compl
 
 BINARY = ('add', 'subtract', 'multiply', 'true_divide', 'floor_divide', 'mod', 'power', 'minimum', 'maximum',
           'greater', 'less', 'equal', 'not_equal', 'greater_equal', 'less_equal',
-          'logical_and', 'logical_or', 'logical_xor', 'bitwise_and', 'bitwise_or')
-UNARY = ('negative', 'positive', 'absolute', 'sign', 'reciprocal', 'square', 'sqrt', 'conjugate', 'real', 'imag', 'logical_not', 'invert')
+          'logical_and', 'logical_or', 'logical_xor', 'bitwise_and', 'bitwise_or', 'hypot', 'arctan2')
+# transcendental functions: the TLA+ model decides shape / kind / dispatch; their values are irrational almost everywhere
+TRANS = ('sin', 'cos', 'tan', 'arcsin', 'arccos', 'arctan', 'sinh', 'cosh', 'tanh', 'arctanh', 'exp', 'log', 'log2', 'log10', 'sinc')
+UNARY = ('negative', 'positive', 'absolute', 'sign', 'reciprocal', 'square', 'sqrt', 'conjugate', 'real', 'imag', 'logical_not', 'invert') + TRANS
 REDUCE = ('sum', 'prod', 'any', 'all', 'max', 'min')
 # operator spelling of the same ufunc calls (NDArrayOperatorsMixin), used as a second route
 OPERATORS = {'add': operator.add, 'subtract': operator.sub, 'multiply': operator.mul, 'true_divide': operator.truediv,
@@ -20,7 +22,7 @@ OPERATORS = {'add': operator.add, 'subtract': operator.sub, 'multiply': operator
              'greater_equal': operator.ge, 'less_equal': operator.le, 'bitwise_and': operator.and_, 'bitwise_or': operator.or_,
              'matmul': operator.matmul, 'negative': operator.neg, 'positive': operator.pos, 'absolute': abs, 'invert': operator.invert}
 # operations whose floating point result is not the exactly rounded rational even for dyadic data
-INEXACT = {'sqrt', 'norm', 'inv', 'det', 'interp', 'reciprocal'}
+INEXACT = {'sqrt', 'norm', 'inv', 'det', 'interp', 'reciprocal', 'hypot', 'arctan2'} | set(TRANS)
 # operations that depend discontinuously on their (float) operands
 DISCONT = {'floor_divide', 'mod', 'divmod', 'greater', 'less', 'equal', 'not_equal', 'greater_equal', 'less_equal', 'sign', 'searchsorted',
            'logical_and', 'logical_or', 'logical_xor', 'logical_not', 'any', 'all', 'choose', 'take', 'getitem'}
